@@ -42,6 +42,11 @@ def kernel_contract(chk, mod, kname):
     # operand shapes: the proofs are element-generic, sound only if the code does not branch on operand shapes -- so the float64
     # case is repeated with 1-d operands, scalar geometry, and each operand along a dimension of its own
     variants = [(combo, '', None) for combo in itertools.product((F64, F32), repeat=4)]
+    # lengths are often stored as integers (2500 mm); each leg has its own symbolic unit, so these cases cover an integer leg in a
+    # unit other than that of the other leg (an integer re-expressed in a coarser unit is rounded by scipp -- the model rounds too)
+    from vf.kit import I64
+    for combo in ((F64, I64, F64, F64), (F64, F64, I64, F64), (F64, I64, I64, F64), (F32, I64, I64, F32)):
+        variants.append((combo, '', None))
     variants.append(((F64,) * 4, '; shape: all 1-d', lambda n: ('row',)))
     variants.append(((F64,) * 4, '; shape: scalar geometry and energy, 1-d tof', lambda n: ('tof',) if n == 'tof' else ()))
     variants.append(((F64,) * 4, '; shape: per-pixel geometry, 2-d tof', lambda n: ('row', 'tof') if n == 'tof' else ('row',)))
